@@ -10,6 +10,7 @@ import (
 	"crypto/sha512"
 	"encoding/binary"
 	"sort"
+	"sync/atomic"
 
 	u "github.com/utreexo/utreexo"
 )
@@ -47,6 +48,29 @@ func LeafHash(i int) Hash {
 	if i < 0 || uint64(i) >= 1<<32 {
 		return h
 	}
+	if p := int(sparse.Load()); p > 0 && i == (p-1)%12 {
+		// the one leaf of the case whose first 12 bytes are all zero (a second one would share its
+		// 12-byte key in the pointer forest, which is outside every statement)
+		s := h
+		h = Hash{}
+		switch (p - 1) / 12 {
+		case 0:
+			copy(h[16:24], s[16:24])
+			h[16] |= 1
+		case 1:
+			copy(h[24:32], s[24:32])
+			h[24] |= 1
+		case 2:
+			copy(h[12:16], s[12:16])
+			h[12] |= 1
+		case 3:
+			h[31] = 1
+		default:
+			copy(h[12:], s[12:])
+			h[20] |= 1
+		}
+		return h
+	}
 	tag := func() { binary.BigEndian.PutUint32(h[8:12], uint32(i)+1) }
 	switch i % 16 {
 	case 5: // eight leading zero bytes
@@ -72,6 +96,22 @@ func LeafHash(i int) Hash {
 		tag()
 	}
 	return h
+}
+
+// sparse selects the case's one leaf whose hash is zero in its first 12 bytes; see SetSparse.
+var sparse atomic.Int32
+
+// SparseModes is the number of values SetSparse distinguishes besides 0.
+const SparseModes = 60
+
+// SetSparse chooses, for the cases that follow, which slot (one of the first twelve, main branch only)
+// carries a hash that is all-zero outside one byte range beyond the 12-byte key: p = 0 none, otherwise
+// slot (p-1) mod 12 and range (p-1) / 12 of {16..23, 24..31, 12..15, byte 31, 12..31}.
+func SetSparse(p int) {
+	if p < 0 || p > SparseModes {
+		p = 0
+	}
+	sparse.Store(int32(p))
 }
 
 // FreshHash is a hash that is never a leaf nor (barring collisions) a node.
